@@ -512,6 +512,12 @@ def _cli_case_batch(job):
         env.tmp = sub
         try:
             handler(case, env)
+        except Exception:
+            # a bug in the monitor itself: never a verdict; the traceback is
+            # carried to the driver, which reports the check as broken
+            import traceback
+            raise Broken("handler %s.%s failed on case %r:\n%s" % (handler_mod, handler_name, case if len(repr(case)) < 200 else ci,
+                                                                  traceback.format_exc()))
         finally:
             # restore permissions so that the tree can be removed
             for root, dirs, files in os.walk(sub):
